@@ -11,6 +11,13 @@ class TranslateError(Exception):
     pass
 
 
+class PinMismatch(TranslateError):
+    """the SHAPE of a piece of code (a function body, a match arm) that the hand-written model mirrors is no longer the one the
+    translator recognises.  Not a table: the tables of that generator stay as last generated, the correspondence check (the
+    designated tie for hand-written control logic) decides, on a widened stream."""
+    pass
+
+
 class Tok:
     __slots__ = ("kind", "val", "pos")
 
